@@ -447,7 +447,7 @@ func TestVerif_C08_Response(t *testing.T) {
 		}
 		r := run.CaseRand(ci)
 		hookRand = r.Fork(99)
-		events := c08RandomEvents(r, w, false)
+		events := c08RandomEvents(r, w, false, "")
 		c08ValidateEvents(t, events, w)
 		order := c08RandomOrder(r, len(events), 2)
 		overdue := c08RandomOverdue(r, len(events))
@@ -504,6 +504,8 @@ func TestVerif_C08_Response(t *testing.T) {
 			}
 		}
 	}
+	g.flush()
+	c08ContinuousPhase(t, run)
 	run.Count("boundary_requests", boundaryPolls)
 	run.Count("boundary_requests_at_late_arrival", boundaryLate)
 	c08CountClients(run, clients)
@@ -533,7 +535,7 @@ func TestVerif_C08_Concurrent(t *testing.T) {
 			continue
 		}
 		r := run.CaseRand(ci)
-		events := c08RandomEvents(r, w, false)
+		events := c08RandomEvents(r, w, false, "")
 		c08ValidateEvents(t, events, w)
 		order := c08RandomOrder(r, len(events), 3)
 		overdue := c08RandomOverdue(r, len(events))
@@ -644,4 +646,481 @@ func TestVerif_C08_Concurrent(t *testing.T) {
 	run.Count("requests_inside_late_forward_window", windowHits)
 	c08CountClients(run, clients)
 	g.flush()
+}
+
+// ---------------------------------------------------------------------------------------------
+// continuous feeds (second phase of part "response")
+//
+// A continuous MultiChangesFeed (Continuous+Wait) is started in the middle of a case from a token another
+// client was handed - typically "low::high" while sequences are skipped - on the case's fresh channel, so
+// that in most cases the channel's cache is created by this very feed (validFrom = high cached + 1, above
+// the skipped sequences).  Then the remaining events, including the late arrivals, are delivered.
+//
+//	CF  bounded delivery by state: every document change of the feed's channels that the change cache
+//	    forwarded AFTER the feed first caught up (in order, or as a late arrival) and that is not above
+//	    the high cached sequence must have been sent by the feed once the feed is quiescent again.
+//	    Quiescent = parked in its change waiter (NumPullReplCaughtUp gauge), it has announced "caught up"
+//	    (nil entry) since the notification of the delivery, and the notification counter of its channels
+//	    has not moved; the verdict needs the same picture on 3 consecutive inspections.  A feed that does
+//	    not get there before a generous watchdog is inconclusive.
+
+type c08ContFeed struct {
+	d      *c08DB
+	chans  base.Set
+	names  []string
+	mask   uint8
+	keys   []channels.ID
+	since  string
+	cancel context.CancelFunc
+
+	mu     sync.Mutex
+	got    map[string]int // "<abs seq>/<doc>" -> times sent
+	sent   []string
+	nils   int
+	closed bool
+	errs   int
+
+	startCalls int // forwards recorded when the feed first caught up
+	donorStep  string
+}
+
+func (d *c08DB) startContFeed(names []string, sinceToken string) (*c08ContFeed, error) {
+	since, err := ParsePlainSequenceID(sinceToken)
+	if err != nil {
+		return nil, err
+	}
+	f := &c08ContFeed{d: d, chans: base.SetOf(names...), names: names, since: sinceToken, got: map[string]int{}}
+	for _, n := range names {
+		f.mask |= c08ChanBit(n)
+		f.keys = append(f.keys, channels.NewID(n, d.g.colID))
+	}
+	cctx, cancel := context.WithCancel(d.ctx)
+	f.cancel = cancel
+	feed, err := d.col.MultiChangesFeed(cctx, f.chans, ChangesOptions{Since: since, Continuous: true, Wait: true, ChangesCtx: cctx})
+	if err != nil {
+		cancel()
+		return nil, err
+	}
+	go func() {
+		for e := range feed {
+			f.mu.Lock()
+			switch {
+			case e == nil:
+				f.nils++
+			case e.Err != nil:
+				f.errs++
+			default:
+				f.got[strconv.FormatUint(e.Seq.Seq, 10)+"/"+e.ID]++
+				f.sent = append(f.sent, e.Seq.String())
+			}
+			f.mu.Unlock()
+		}
+		f.mu.Lock()
+		f.closed = true
+		f.mu.Unlock()
+	}()
+	return f, nil
+}
+
+type c08ContState struct {
+	nils, sent int
+	parked     int64
+	count      uint64
+	closed     bool
+}
+
+func (f *c08ContFeed) state() c08ContState {
+	f.mu.Lock()
+	s := c08ContState{nils: f.nils, sent: len(f.sent), closed: f.closed}
+	f.mu.Unlock()
+	s.parked = f.d.db.DbStats.CBLReplicationPull().NumPullReplCaughtUp.Value()
+	s.count = f.d.db.mutationListener.CurrentCount(f.keys)
+	return s
+}
+
+// waitQuiescent waits (state predicate, generous watchdog) until the feed has announced "caught up" more than
+// nilsBefore times and is parked in its waiter.
+func (f *c08ContFeed) waitQuiescent(nilsBefore int) bool {
+	deadline := time.Now().Add(60 * time.Second)
+	for time.Now().Before(deadline) {
+		s := f.state()
+		if s.closed {
+			return false
+		}
+		if s.nils > nilsBefore && s.parked >= 1 {
+			return true
+		}
+		time.Sleep(200 * time.Microsecond)
+	}
+	return false
+}
+
+// missing lists the document changes of the feed's channels forwarded after the feed first caught up, not
+// above the high cached sequence, that the feed has not sent.
+func (f *c08ContFeed) missing() (late, inOrder []string) {
+	g := f.d.g
+	high := g.cc.getChannelCache().GetHighCacheSequence()
+	calls := g.rec.snapshot()
+	f.mu.Lock()
+	defer f.mu.Unlock()
+	for k := f.startCalls; k < len(calls); k++ {
+		c := calls[k]
+		if c.Chans&f.mask == 0 || c.Seq > high {
+			continue
+		}
+		if f.got[strconv.FormatUint(c.Seq, 10)+"/"+c.DocID] == 0 {
+			desc := fmt.Sprintf("%s at sequence %d (relative %d)", c.DocID, c.Seq, int64(c.Seq)-int64(g.base))
+			if c.Late {
+				late = append(late, desc)
+			} else {
+				inOrder = append(inOrder, desc)
+			}
+		}
+	}
+	return
+}
+
+func (f *c08ContFeed) stop() bool {
+	f.cancel()
+	f.d.db.mutationListener.NotifyCheckForTermination(f.d.ctx, base.SetOf("c08"))
+	deadline := time.Now().Add(30 * time.Second)
+	for time.Now().Before(deadline) {
+		f.mu.Lock()
+		closed := f.closed
+		f.mu.Unlock()
+		if closed {
+			return true
+		}
+		time.Sleep(200 * time.Microsecond)
+		f.d.db.mutationListener.NotifyCheckForTermination(f.d.ctx, base.SetOf("c08"))
+	}
+	return false
+}
+
+func (d *c08DB) contWitness(f *c08ContFeed, detail string) map[string]any {
+	g := d.g
+	evs := make([]string, len(g.events))
+	for i := range g.events {
+		evs[i] = g.events[i].label()
+		if g.overdue[i] {
+			evs[i] += "!"
+		}
+	}
+	var fw []any
+	for k, call := range g.rec.snapshot() {
+		m := call.describe(g.base)
+		m["after_feed_caught_up"] = k >= f.startCalls
+		fw = append(fw, m)
+	}
+	f.mu.Lock()
+	sent := append([]string{}, f.sent...)
+	nils := f.nils
+	f.mu.Unlock()
+	vf := int64(-1)
+	if g.extraCache != nil {
+		g.extraCache.lock.RLock()
+		vf = int64(g.extraCache.validFrom) - int64(g.base)
+		g.extraCache.lock.RUnlock()
+	}
+	return map[string]any{
+		"how_to_read":                  "sequences relative to base except inside tokens; the continuous feed (MultiChangesFeed Continuous+Wait, admin) was started from 'feed_since' (a token handed to a one-shot client on channel *) after the deliveries listed before it",
+		"window":                       g.w,
+		"base":                         g.base,
+		"CachePendingSeqMaxNum":        g.maxNum,
+		"events":                       evs,
+		"deliveries_so_far":            g.deliveryLabels(),
+		"feed_channels":                f.names,
+		"feed_since":                   f.since,
+		"feed_started":                 f.donorStep,
+		"feed_sent":                    sent,
+		"feed_caught_up_announcements": nils,
+		"fresh_channel":                g.extraChan,
+		"fresh_channel_cache_valid_from_rel": vf,
+		"forwards_to_channel_cache":    fw,
+		"detail":                       detail,
+	}
+}
+
+// inspect applies CF after a delivery. nilsBefore / countBefore were read before the delivery.
+func (d *c08DB) inspectCont(f *c08ContFeed, nilsBefore int, countBefore uint64, where string) bool {
+	g := d.g
+	if f.state().count != countBefore { // the delivery notified one of the feed's channels: the feed must run once more
+		if !f.waitQuiescent(nilsBefore) {
+			g.run.Inconclusive("continuous feed did not become quiescent before the watchdog")
+			return true
+		}
+	}
+	same := 0
+	var prev c08ContState
+	for i := 0; i < 200; i++ {
+		st := f.state()
+		late, inOrder := f.missing()
+		if len(late)+len(inOrder) == 0 {
+			return true
+		}
+		if st.parked >= 1 && !st.closed && (same == 0 || st == prev) {
+			same++
+		} else {
+			same = 0
+		}
+		prev = st
+		if same >= 3 {
+			if len(late) > 0 {
+				sig := fmt.Sprintf("C08|%s|CF-continuous-delivery|late-arrival-never-delivered-to-running-continuous-feed", g.part)
+				msg := fmt.Sprintf("late arrival never delivered to a running continuous feed: %s on channels %v (feed since=%q) is parked in its change waiter, has announced caught-up since the late event was processed, and has not sent %v", where, f.names, f.since, late)
+				d.viol.Add(1)
+				g.run.Violation("CF-continuous-delivery", sig, msg, d.contWitness(f, msg))
+			} else {
+				sig := fmt.Sprintf("C08|%s|CF-continuous-delivery|in-order-entry-never-delivered-to-running-continuous-feed", g.part)
+				msg := fmt.Sprintf("in-order entry never delivered to a running continuous feed: %s on channels %v (feed since=%q) is quiescent and has not sent %v", where, f.names, f.since, inOrder)
+				d.viol.Add(1)
+				g.run.Violation("CF-continuous-delivery", sig, msg, d.contWitness(f, msg))
+			}
+			return false
+		}
+		time.Sleep(time.Millisecond)
+	}
+	g.run.Inconclusive("continuous feed state kept changing during inspection")
+	return true
+}
+
+// c08ProbeStaleLowToken is a fixed history for a continuous feed that resumes from a token handed out BEFORE a
+// late arrival, while the oldest skipped sequence is unchanged: documents 1..5 in one channel,
+// CachePendingSeqMaxNum=0; 1 and 4 arrive (2,3 skipped); a one-shot client is handed last_seq "low::4"; 3 arrives
+// late; a continuous feed resumes from "low::4" (SimpleMultiChangesFeed drops the low part because it equals the
+// current low sequence, and for a feed with late-sequence feeds never restores it); 5 and finally 2 arrive.
+// Observed on the code as of this writing: the feed sends 5 and 2 but never 3 - and after 2 arrived the low
+// sequence is gone, so a checkpoint taken from the feed is past 3 for good.  A one-shot client in the same
+// position does get 3 (its next request after 2 arrived restarts from low).  Reported as a violation (listed in
+// KNOWN_FINDINGS.jsonl); VERIF_C08_STALE_LOW_PROBE=note turns it into a note, =off skips the probe.
+func c08ProbeStaleLowToken(t *testing.T, run *vlib.Run, d *c08DB) {
+	mode := os.Getenv("VERIF_C08_STALE_LOW_PROBE")
+	if mode == "off" {
+		return
+	}
+	g := d.g
+	extra := g.nextExtraChan()
+	events := c08ParseShape("DDDDD")
+	for i := range events {
+		events[i].Chans = []string{extra}
+	}
+	if !g.beginCase(events, 5, make([]bool, 5), 0) {
+		return
+	}
+	g.extraChan = extra
+	donor := c08NewClient("donor{*}", "*")
+	donor.begin(g)
+	step := func(ei int, where string) bool { return g.deliver(ei) }
+	if !step(0, "1") || !step(3, "4") || !d.poll(donor, "after-delivery #2", true) {
+		g.rebuild()
+		return
+	}
+	stale := donor.token
+	if !step(2, "3 late") {
+		g.rebuild()
+		return
+	}
+	f, err := d.startContFeed([]string{extra}, stale)
+	if err != nil || !f.waitQuiescent(0) {
+		run.Inconclusive("stale-low-token probe: continuous feed did not start")
+		return
+	}
+	g.noteExtra()
+	f.donorStep = "after-delivery #3 (token from after-delivery #2)"
+	for _, ei := range []int{4, 1} {
+		st := f.state()
+		if !g.deliver(ei) {
+			break
+		}
+		if st2 := f.state(); st2.count != st.count && !f.waitQuiescent(st.nils) {
+			run.Inconclusive("stale-low-token probe: feed not quiescent")
+		}
+	}
+	g.endCase()
+	// three identical quiescent inspections
+	same, missed := 0, false
+	var prev c08ContState
+	for i := 0; i < 200 && same < 3; i++ {
+		st := f.state()
+		f.mu.Lock()
+		missed = f.got[strconv.FormatUint(g.abs(3), 10)+"/"+g.docIDs[2]] == 0
+		f.mu.Unlock()
+		if !missed {
+			break
+		}
+		if st.parked >= 1 && (same == 0 || st == prev) {
+			same++
+		} else {
+			same = 0
+		}
+		prev = st
+		time.Sleep(time.Millisecond)
+	}
+	run.Count("stale_low_token_probe_runs", 1)
+	if missed && same >= 3 {
+		run.Count("stale_low_token_probe_late_arrival_missed", 1)
+		msg := fmt.Sprintf("continuous feed resumed from %q (handed out before sequence 3 arrived late, oldest skipped sequence unchanged) sent %v and is quiescent, but never sent the late arrival at sequence 3 (relative); after sequence 2 arrived no low sequence is left, so the client's checkpoint passes it for good", stale, f.sent)
+		if mode != "note" {
+			d.viol.Add(1)
+			run.Violation("CF-continuous-delivery", "C08|response|CF-continuous-delivery|resume-from-token-older-than-late-arrival|low-part-dropped-while-oldest-skipped-unchanged", msg, d.contWitness(f, msg))
+		} else {
+			run.Note("stale-low-token probe (VERIF_C08_STALE_LOW_PROBE=note): %s", msg)
+		}
+	}
+	if !f.stop() {
+		run.Inconclusive("stale-low-token probe: feed did not terminate")
+		g.rebuild()
+	}
+	g.st = c08Stats{}
+}
+
+func c08ContinuousPhase(t *testing.T, run *vlib.Run) {
+	d := c08NewDBRig(t, run, "response")
+	defer func() { d.close() }()
+	g := d.g
+	c08ProbeStaleLowToken(t, run, d)
+	total := run.N(500, 8000)
+	const w = 12
+	feeds, feedsLow, feedsCreateCache, lateAfterStart, lateBelowVF, sentTotal, dupSent := 0, 0, 0, 0, 0, 0, 0
+	for ci := 0; ci < total; ci++ {
+		r := run.CaseRand(1000000 + ci)
+		extra := g.nextExtraChan()
+		events := c08RandomEvents(r, w, false, extra)
+		c08ValidateEvents(t, events, w)
+		order := c08RandomOrder(r, len(events), 2)
+		overdue := c08RandomOverdue(r, len(events))
+		maxNum := vlib.Pick(r, []int{0, 0, 1, 2, 3, w})
+		if !g.beginCase(events, w, overdue, maxNum) {
+			continue
+		}
+		g.extraChan = extra
+		donor := c08NewClient("donor{*}", "*")
+		donor.begin(g)
+		wantLow := r.Chance(3, 4)     // start the feed from the first token that carries a low sequence
+		fallback := r.Intn(len(order)) // ... or after this delivery
+		preOpen := r.Chance(1, 5)     // an earlier request on the fresh channel created its cache already
+		names := []string{extra}
+		if r.Chance(1, 3) {
+			names = append(names, "A")
+		}
+		var f *c08ContFeed
+		ok := true
+		for k, ei := range order {
+			var nilsBefore int
+			var countBefore uint64
+			if f != nil {
+				st := f.state()
+				nilsBefore, countBefore = st.nils, st.count
+			}
+			delivered := g.deliver(ei)
+			where := fmt.Sprintf("after-delivery #%d", k+1)
+			if f != nil {
+				g.noteExtra()
+				if !d.inspectCont(f, nilsBefore, countBefore, where) {
+					ok = false
+				}
+			}
+			if !delivered {
+				ok = false
+			}
+			if !ok {
+				break
+			}
+			if !d.poll(donor, where, true) {
+				ok = false
+				break
+			}
+			if f == nil && k < len(order)-1 {
+				tok, _ := ParsePlainSequenceID(donor.token)
+				hasLow := tok.LowSeq > 0 && tok.LowSeq < tok.Seq
+				if (wantLow && hasLow) || (!wantLow && k >= fallback) || k == len(order)-2 {
+					if preOpen {
+						g.openExtra()
+					}
+					var err error
+					f, err = d.startContFeed(names, donor.token)
+					if err != nil {
+						run.Inconclusive("continuous feed could not be started: " + err.Error())
+						ok = false
+						break
+					}
+					f.donorStep = where
+					if !f.waitQuiescent(0) {
+						run.Inconclusive("continuous feed never caught up")
+						ok = false
+						break
+					}
+					g.noteExtra()
+					f.startCalls = len(g.rec.snapshot())
+					feeds++
+					if hasLow {
+						feedsLow++
+					}
+					if !preOpen {
+						feedsCreateCache++
+					}
+				}
+			}
+		}
+		if ok {
+			ok = g.endCase()
+		} else {
+			g.st.cases++
+		}
+		if f != nil {
+			if ok {
+				st := f.state()
+				if !d.inspectCont(f, st.nils, st.count, "final") {
+					ok = false
+				}
+			}
+			for k, c := range g.rec.snapshot() {
+				if k >= f.startCalls && c.Late && c.Chans&f.mask != 0 {
+					lateAfterStart++
+					if c.BelowValidFrom {
+						lateBelowVF++
+					}
+				}
+			}
+			f.mu.Lock()
+			sentTotal += len(f.sent)
+			for _, n := range f.got {
+				if n > 1 {
+					dupSent++
+				}
+			}
+			f.mu.Unlock()
+			if !f.stop() {
+				run.Inconclusive("continuous feed did not terminate")
+				g.rebuild()
+			}
+		}
+		if ci < 2 && f != nil {
+			f.mu.Lock()
+			run.Sample(map[string]any{"continuous_case": ci, "deliveries": g.deliveryLabels(), "feed_channels": f.names, "feed_since": f.since, "feed_started": f.donorStep, "feed_sent": append([]string{}, f.sent...)})
+			f.mu.Unlock()
+		}
+		if ok && g.sawLate {
+			run.Nontrivial("continuous|" + strings.Join(g.deliveryLabels(), " ") + "|" + strconv.Itoa(maxNum))
+		}
+		if !ok {
+			g.rebuild()
+			if g.nViol+int(d.viol.Load()) >= 8 {
+				break
+			}
+		}
+	}
+	run.Count("continuous_feeds", feeds)
+	run.Count("continuous_feeds_started_from_low_token", feedsLow)
+	run.Count("continuous_feeds_creating_the_channel_cache", feedsCreateCache)
+	run.Count("continuous_late_arrivals_after_feed_start", lateAfterStart)
+	run.Count("continuous_late_arrivals_below_cache_valid_from", lateBelowVF)
+	run.Count("continuous_entries_sent", sentTotal)
+	run.Count("continuous_entries_sent_more_than_once", dupSent)
+	st := g.st
+	g.st = c08Stats{}
+	run.Count("continuous_cases", st.cases)
+	run.Evals(st.cases)
+	run.Count("continuous_events_delivered", st.events)
+	run.Count("continuous_states_checked", st.states)
 }
